@@ -137,7 +137,8 @@ Step(cc, code, ip, stk, loops, s, ctx) ==
               ELSE IF Has(ctx.host, name) THEN
                    (LET kind == Get(ctx.host, name)
                         s1 == [s0 EXCEPT !.calls = Append(s0.calls, <<name, args>>)] IN
-                    Back(IF kind[1] = "log" THEN V ELSE IF kind[1] = "same" THEN (IF arg > 0 THEN args[1] ELSE N) ELSE kind[2], s1))
+                    Back(IF kind[1] = "log" THEN V ELSE IF kind[1] = "same" THEN (IF arg > 0 THEN args[1] ELSE N)
+                         ELSE IF kind[1] = "pack" THEN A(args) ELSE kind[2], s1))
               ELSE IF HasFunc(cc, name) THEN
                    (LET f == FuncBody(cc, name)  params == f[2]  depth == Len(s0.sc) IN
                     IF Len(params) # arg THEN [s |-> VMFail(s0), out |-> STOP]
